@@ -101,10 +101,10 @@ class Env(dict):
     def lookup(self, name):
         e = self
         while e is not None:
-            if name in e:
-                return dict.__getitem__(e, name)
             if isinstance(e, ModuleEnv):
                 return e.resolve(name)
+            if name in e:
+                return dict.__getitem__(e, name)
             e = e.parent
         raise NameError(name)
 
@@ -120,13 +120,12 @@ class ModuleEnv(Env):
         self._resolving = set()
 
     def resolve(self, name):
+        it = self.interp
+        ov = it.global_overrides.get(self.modname)
+        if ov is not None and name in ov:
+            return ov[name]  # callee contracts are looked up dynamically (never cached)
         if name in self:
             return dict.__getitem__(self, name)
-        it = self.interp
-        if name in it.global_overrides.get(self.modname, {}):
-            v = it.global_overrides[self.modname][name]
-            self[name] = v
-            return v
         for n in self.tree.body:
             v = _MISSING
             if isinstance(n, ast.FunctionDef) and n.name == name:
